@@ -5900,3 +5900,75 @@ def c06_incoming_payload(env):
 
 
 REGISTRY.setdefault("C06", []).append(c06_incoming_payload)
+
+
+# ---- C18: what a discharge does: commit unless the controller says the work failed; unknown ids refused ---------
+
+
+def c18_discharge(env):
+    o = Obligation("c18_a_discharge_commits_unless_it_says_fail", "C18")
+    o.desc = "TxnCoordinator::on_discharge (listener side, one control-link delivery): an id this control link did not declare (or already discharged: the id is removed from the link's set by the same call) is refused with unknown-id and neither commit nor rollback is started; otherwise rollback_transaction is started exactly when the discharge says fail=true and commit_transaction exactly when it says fail=false OR LEAVES THE FIELD OUT (AMQP 4.5.5: the flag requests a rollback only if set), never both; the coordinator's answer is the result of that call"
+    fn = env.fn(r"^coordinator::<impl at [^>]*>::on_discharge::\{closure#0\}$")
+    o.functions = [fn.name]
+    o.bounds = ["coroutine body from its initial state through one poll; the fail field absent / false / true; the id known or unknown to the link; the inner future ready or pending"]
+    o.assumes = ["HashSet::remove returns whether the id was present (std contract); commit_transaction / rollback_transaction are the session-side steps (c18_* on TxnSession)"]
+    i_fail = env.fidx("Discharge", "fail")
+    txt = "\n".join(t for b in fn.blocks.values() for t in (b[0] + [b[1]]))
+    am = re.search(r"\(\(\*_\d+\)\.(\d+): &[\w:]*Discharge\)", txt)
+    sm = re.search(r"\(\(\*_\d+\)\.(\d+): &mut [\w:]*TxnCoordinator\)", txt)
+    if not am or not sm:
+        raise mir.Unsupported("arguments of on_discharge not found in the coroutine")
+    ex = env.executor(max_visits=3)
+    known = z3.Bool("the id was declared on this link and not yet discharged")
+
+    def m_remove(ex_, st, callee, args, argvals, dty):
+        return known
+
+    ex.models = [(r"^HashSet::<.*>::remove::<", m_remove)]
+    D = mir.Agg("discharge")
+    fo = mir.Agg("Option<bool>")
+    f_d = z3.BitVec("discharge.fail.is_some", 64)
+    f_v = z3.Bool("discharge.fail")
+    fo["#d"] = f_d
+    sub = mir.Agg("Some")
+    sub[0] = f_v
+    fo[("as", "Some")] = sub
+    D[i_fail] = fo
+    cor = mir.Agg("coroutine")
+    cor["#d"] = z3.BitVecVal(0, 64)
+    cor[int(sm.group(1))] = mir.Ref(("@self",), True)
+    cor[int(am.group(1))] = mir.Ref(("@dis",), False)
+    pin = mir.Agg("pin")
+    pin[0] = mir.Ref(("@cor",), True)
+    paths = ex.run(fn, {"_1": pin, "@cor": cor, "@self": mir.Agg("coordinator"), "@dis": D})
+    hyp = ex.assumptions + [z3.ULE(f_d, 1)]
+
+    def replay(m):
+        cmds = ["scn txn_discharge 2", "scn txn_discharge 0", "scn txn_discharge 1"]
+        return cmds, (lambda outs: any(js.get("panic") or not js["as_expected"] for js in outs))
+
+    n = 0
+    says_fail = z3.And(f_d == 1, f_v)
+    for i, p in enumerate(paths):
+        if p.end != "return":
+            continue
+        H = hyp + p.cond
+        s = z3.Solver()
+        s.add(*H)
+        if s.check() != z3.sat:
+            continue
+        n += 1
+        commits = count_calls(p, r"(^|::)commit_transaction$")
+        rollbacks = count_calls(p, r"(^|::)rollback_transaction$")
+        o.prove(f"path{i}:unknown-id-starts-nothing", H + [z3.Not(known)], z3.BoolVal(commits + rollbacks == 0), replay=replay)
+        o.prove(f"path{i}:known-id-starts-exactly-one", H + [known], z3.BoolVal(commits + rollbacks == 1), replay=replay)
+        o.prove(f"path{i}:rollback-iff-fail-is-set-and-true", H + [known], z3.BoolVal(rollbacks == 1) == says_fail, replay=replay)
+        o.prove(f"path{i}:commit-iff-fail-is-false-or-absent", H + [known], z3.BoolVal(commits == 1) == z3.Not(says_fail), replay=replay)
+        rdy, is_ok = poll_ready_result(p.ret) if isinstance(p.ret, mir.Agg) and "#d" in p.ret else (None, None)
+        if rdy is not None and is_ok is not None:
+            o.prove(f"path{i}:unknown-id-is-refused", H + [z3.Not(known), rdy], z3.Not(is_ok), replay=replay)
+    o.cover("paths", [z3.BoolVal(n > 2)])
+    return [o]
+
+
+REGISTRY.setdefault("C18", []).append(c18_discharge)
